@@ -94,6 +94,26 @@ def expr_cases(tier):
                 for X2 in (("j",), ("i",), ("k",), ("i", "k")):
                     out.append(_red(plus, _prod(times, [s_, s_, _leaf(a2, 2, b)]), X2))
                     out.append(_prod(times, [s_, _red(plus, _prod(times, [s_, _leaf(a2, 2, b)]), X2)]))
+                    out.append(_red(plus, _prod(times, [s_, s_, s_, _leaf(a2, 2, b)]), X2))  # three uses
+        # S5: a semiring sum with a product as a direct operand (distribution in the other direction), optionally reduced
+        for a1, a2, a3 in itertools.product(small[:5], repeat=3):
+            body = ("B", plus, _prod(times, [_leaf(a1, 1, b), _leaf(a2, 2, b)]), _leaf(a3, 3, b))
+            out.append(body)
+            out.append(_prod(times, [body, _leaf(a1, 4, b)]))
+            for X in (("i",), ("j",), ("i", "j"), ("k",)):
+                out.append(_red(plus, body, X))
+        # S6: two-key substitutions (swap / renaming chain / index tensors) into a lazy sum-product
+        for a1, a2 in (("i", "k"), ("k", "i"), ("i", "j")):
+            for a3 in ((), ("k",), ("i", "k")):
+                body0 = _prod(times, [_leaf((a1, a2) if a1 != a2 else (a1,), 1, b), _leaf(a3, 2, b)])
+                for body in (body0, _red(plus, body0, ("j",))):
+                    if not lang.well_typed(body):
+                        continue
+                    tb = lang.ty(body).inputs
+                    if "i" in tb and "k" in tb:
+                        out.append(("S", body, (("i", gen.V("k", 2)), ("k", gen.V("i", 2)))))
+                        out.append(("S", body, (("i", gen.V("k", 2)), ("k", gen.V("f", 2)))))
+                        out.append(("S", body, (("i", gen.T("k", dtype=2, contents=[1, 0])), ("k", gen.T("m", dtype=2, contents=[1])))))
         if b:
             continue
         # free real parameter on one operand; substitution wrapper
